@@ -1,4 +1,5 @@
 import RlboxModel.Range
+import RlboxModel.PtrOps
 import Driver.Util
 import Driver.PtrEng
 /-! Engine `range` (C10): the model's answers to the lines of `harness/h_range.cpp`. -/
@@ -104,6 +105,20 @@ def step (t : List String) : Option String :=
       match memcpyOp K total d s srcSize with
       | none => pure "abort"
       | some _ => pure s!"ok {showA d} copied=1 {run1 d srcSize (sk == "app")}"
+  | ["grantf", el, src, num, forced] => do
+      let (s, sk) ← addrOf src
+      let sz ← appSize el
+      let c ← (parseInt? num).map Int.toNat
+      let v ← forced.toNat?
+      let srcSize := (c * sz) % W64
+      if c > 4294967295 then pure "abort" else
+      match mallocIn ⟨⟨K, base0⟩, 4⟩ (v % 2 ^ 32) c sz with
+      | none => pure "abort"
+      | some 0 => pure "ok null copied=0 -"
+      | some d =>
+        match memcpyOp K total d s srcSize with
+        | none => pure "abort"
+        | some _ => pure s!"ok {showA d} copied=1 {run1 d srcSize (sk == "app")}"
   | _ => none
 
 end Driver.RangeEng
